@@ -1,5 +1,6 @@
 import ConcVerif.Proof.Latch
 import ConcVerif.Proof.LatchLive
+import ConcVerif.Proof.LatchCalls
 /-! # C10 — Latch opens exactly when the count is reached and never loses a wake-up
 
 All statements are over `Reachable start s`: every accepted event sequence of the model in
@@ -247,5 +248,38 @@ theorem C10_stuck_all_returned {start : Int} {s : St} (h : Reachable start s) (h
 
 /-- non-vacuity: after the witness trace thread 1 is in `wRet`; one more step and all have returned -/
 example : ∃ s, Reachable 1 s ∧ s.counter ≤ 0 ∧ s.pc 1 ≠ .idle := ⟨_, ⟨witnessTrace, rfl⟩, by decide, by decide⟩
+
+/-! ## The ghost counter is tied to the calls in the trace
+
+`C10_wait_sound` speaks about `St.arrived`, the number of decrements performed.  The property speaks
+about *arrive calls that have taken place*.  The theorems below close that gap for every trace: a
+decrement is always made by a thread inside an `arrive` / `arrive_and_wait` call that has not
+decremented before, so `arrived` is the number of such calls started minus the callers still in
+front of their decrement. -/
+
+/-- exact accounting: calls started = decrements performed + callers still before their decrement -/
+theorem C10_arrived_accounting {start : Int} {es : List (Tid × Ev)} {s : St} (h : run start es = some s) :
+    ∃ P : List Tid, s.arrived + P.length = arriveCalls es ∧ ∀ t, (s.pc t).pending = true → t ∈ P := by
+  obtain ⟨P, hj⟩ := J_run es (J_init start) h
+  exact ⟨P, by simpa using hj.sum, hj.mem⟩
+
+/-- a decrement is never counted without an `arrive` / `arrive_and_wait` call behind it -/
+theorem C10_arrived_le_calls {start : Int} {es : List (Tid × Ev)} {s : St} (h : run start es = some s) :
+    s.arrived ≤ arriveCalls es := by
+  obtain ⟨P, hs, _⟩ := C10_arrived_accounting h
+  omega
+
+/-- `wait` / `arrive_and_wait` return only after at least `start` calls of `arrive` /
+`arrive_and_wait` have been made (the statement of the property, on the trace itself). -/
+theorem C10_wait_needs_calls {start : Int} {es : List (Tid × Ev)} {s s' : St} {t : Tid} {k : Kind}
+    (h : run start es = some s) (hk : k ≠ .arrive) (hs : step s t (.ret k) = some s') :
+    start ≤ (arriveCalls es : Int) := by
+  have h1 := C10_wait_sound ⟨es, h⟩ hk hs
+  have h2 := C10_arrived_le_calls h
+  omega
+
+/-- non-vacuity: a trace with one arrive call, one decrement, and a waiter that returns -/
+example : ∃ s, run 1 witnessTrace = some s ∧ arriveCalls witnessTrace = 1 ∧ s.arrived = 1 :=
+  ⟨_, rfl, by decide, by decide⟩
 
 end ConcVerif.Latch
